@@ -139,6 +139,21 @@ PROPS = {
         "note": "template arguments (characters, masks, values) are compile-time: boundary-structured samples only; the native "
                 "aggregator for the large spaces is trusted code cross-checked by raw sampled records",
     },
+    "C13": {
+        "families": ["st", "act"],
+        "must_count": ["state", "act", "cases"],
+        "nontrivial_key": "state",
+        "level": "TLC checks on every rule entry that apply mode, action family, control family and innermost state observed for a "
+                 "sub-rule are exactly what the enclosing invocation prescribes (at/not_at/enable/disable/action<>/control<>, "
+                 "change_action*, change_control, enable_action, disable_action), hence nothing leaks to siblings or later rules; the "
+                 "life cycle of an instrumented state object (constructed once at the start of the attached rule's attempt with the "
+                 "outer states, success exactly once iff matched -- action-based variants only with actions enabled -- with the "
+                 "cursor after the match, destroyed before the rule returns or unwinds) is a per-invocation automaton; every action "
+                 "must receive the innermost live instance; outcomes are compared with Den, which applies the switches",
+        "rule": "cases = grammar with state<>, change_state(s), change_action(_and_state(s)), change_control, enable/disable_action "
+                "on named rules, nested with backtracking, predicates, disabled sections and exceptions x input x configuration; "
+                "non-trivial = state life-cycle events validated",
+    },
     "C14": {
         "families": ["obs_json"],
         "must_count": ["cases"],
